@@ -211,6 +211,43 @@ def check_table(rep, prog):
     # field mapping of an entry line: (pattern, message, params, file, line)
     news = [e for e in I2.events if e.kind == "new" and e.data[0] == IL + "PTETableEntry"]
     okn = len(news) == 1
+    if okf and okn and len(news[0].data[2]) == 5:
+        # ... and what each row yields: the summary of the row parser is run on sample rows (escaped quotes and other
+        # backslash escapes in the message, parameter lists in the spellings a C initialiser allows)
+        rows = [('  { "01040000", "Power on complete", {}, "states.cpp", 601 },\n', ("01040000", "Power on complete", ())),
+                ('  { "100100**", "PS%d - Faults Cleared", {4}, "mps.cpp", 759 },\n', ("100100**", "PS%d - Faults Cleared", (4,))),
+                ('  { "0200****", "This PEROM level = %c%c", {3, 4}, "states.cpp", 254 },\n', ("0200****", "This PEROM level = %c%c", (3, 4))),
+                ('  { "E2082690", "P1 IO Bay VRM in \\"N-Mode\\"", {}, "vrm_monitor.cpp", 145 },\n', ("E2082690", 'P1 IO Bay VRM in "N-Mode"', ())),
+                ('  { "0300****", "IO Bay %d status = %d\\n", {4,3}, "bay.cpp", 12 },\n', ("0300****", "IO Bay %d status = %d\\n", (4, 3))),
+                ('  { "0400****", "path C:\\\\tmp %d", { 3 , 4 }, "p.cpp", 13 },\n', ("0400****", "path C:\\\\tmp %d", (3, 4))),
+                ('  { "0500****", "fan %d of %d", {3u, 4U}, "fan.cpp", 14 },\n', ("0500****", "fan %d of %d", (3, 4))),
+                ('  { "0600****", "bay %d type %d", { 3 /* bay */, 4 /* type */ }, "bay.cpp", 15 },\n', ("0600****", "bay %d type %d", (3, 4))),
+                ('  { "0700****", "slot %d", {0x03}, "slot.cpp", 16 },\n', ("0700****", "slot %d", (3,)))]
+        head = ['static struct pte_entry_struct static_pte_entry_table[PTE_TABLE_SIZE] = \n', '{\n']
+        sample2 = head + [r_[0] for r_ in rows] + ['  { ""        , "The End" }\n', '};\n']
+        a5 = news[0].data[2]
+        env = pelx.with_heap(I2, {Lf0.iter: sample2, Op("len", Lf0.iter): len(sample2)})
+        try:
+            got_rows = []
+            cols = []
+            for t_ in a5[:3]:
+                col, _ = pelx.run_loop(Lf0, env, [("rep", Lf0, t_, items[0][3])])
+                cols.append(col)
+            got_rows = [(p_, m_, tuple(x_ for x_ in (q_ if isinstance(q_, (list, tuple)) else ()) if isinstance(x_, int) and 1 <= x_ <= 4))
+                        for p_, m_, q_ in zip(*cols)]
+        except CannotEval as e:
+            raise AnalysisError("PTE table row parser summary not evaluable: %s" % e)
+        want_rows = [r_[1] for r_ in rows]
+        badr = None
+        if len(got_rows) != len(want_rows):
+            badr = "%d of the %d sample rows become table entries (kept: %s)" % (len(got_rows), len(want_rows), [g_[0] for g_ in got_rows])
+        else:
+            for g_, w_, r_ in zip(got_rows, want_rows, rows):
+                if g_ != w_ and badr is None:
+                    badr = "the row %s is read as %r, documented %r" % (r_[0].strip(), g_, w_)
+        rep.check(badr is None, rule, "every table row yields (pattern, message with \\\" unescaped, parameter numbers) - %d sample rows" % len(rows),
+                  "PTETable._add_entry", "PTETableEntry(pte_pattern, message_format, params, file, line)",
+                  "the table loader does not read every row as written: %s" % badr)
     if okn:
         a = news[0].data[2]
         grp = [x for x in walk(a[0]) if isinstance(x, Op) and x.op == "m:groups"]
@@ -257,6 +294,9 @@ def check_matches(rep, prog):
         h = "%08X" % p
         # wild cards, lower case, keys shorter / longer than a PTE, a key that is only a prefix
         pats |= {h[:4] + "****", "**" + h[2:], h.lower(), h[:4], h[:7], h + "0", "*" * 8, h[:2] + "*" * 5}
+        # the same spellings of the key a reported error is found under (its value without the reported flag)
+        hc = "%08X" % (p & ~0x00040000 & 0xFFFFFFFF)
+        pats |= {hc.lower(), "*" + hc[1:], "**" + hc[2:], hc[:4] + "****", hc[0].lower() + hc[1:], hc[:7] + "*"}
         # a wild card stands for ONE hex digit: single-digit wild cards, and keys that differ from the PTE in the digit next
         # to the wild card
         for pos in range(8):
@@ -398,6 +438,8 @@ def run(rep, prog, thorough):
     check_table(rep, prog)
     check_matches(rep, prog)
     check_regexes(rep, prog)
+    from ..effects import check_text_decoding
+    check_text_decoding(rep, prog, "C14.R2.first-match", "io_drawer.ilog", "the PTE table header file")
     from ..effects import check_no_memoised
     check_no_memoised(rep, prog, 'C14.R2.first-match', ['io_drawer'], 'the PTE table of an earlier decode is reused although the header file given now may differ')
     c = I_const(prog)
